@@ -70,6 +70,15 @@ def build(rng, tier):
     if rng.random() < 0.3:
         scn['searchers'].append({'table': dict((m, rng.choice(['fresh', 'absent', 'absent']))
                                                for m in mods), 'stub': rng.random() < 0.3})
+    # readers may find a module under another file name (case variant): the reported alias differs
+    # from the requested name (only without noDeps, where the alias decides what counts as requested)
+    if not scn['options'].get('noDeps') and rng.random() < 0.3:
+        scn['source_alias'] = 'lower'
+        if len(scn['sources']) > 1 and rng.random() < 0.7:
+            # a broken copy first, a good one later: the earlier failure must be forgotten
+            m = rng.choice(mods)
+            scn['sources'][0][m] = rng.choice(['synerr', 'lexerr', 'truncated'])
+            scn['sources'][1][m] = 'ok'
     return scn, gname
 
 
@@ -89,6 +98,8 @@ def case_trace(idx, rng, tier, res):
     want = bool(scn['options'].get('genTexts'))
     nfail = len([1 for v in run.get('result', {}).values() if v in ('failed', 'missing', 'borrowed')])
     res.count('flavour_skips', nfail * len([b for b in scn['borrowers'] if bool(b['genTexts']) != want]))
+    if scn.get('source_alias'):
+        res.count('alias_source_scenarios')
     res.cell('A:graph:' + gname, 'A:noDeps=%s,genTexts=%s,ignore=%s' % tuple(
         bool(scn['options'].get(k)) for k in ('noDeps', 'genTexts', 'ignoreErrors')))
     for v in run.get('result', {}).values():
